@@ -68,6 +68,27 @@ fn spell(rng: &mut Rng, mode: Mode, parent: &str, target: &str) -> String {
     if mode == Mode::Plain {
         return target.to_string();
     }
+    if rng.chance(1, 60) {
+        // include strings no tree answers: they must fail cleanly
+        return [
+            "",
+            "a\\b.h",
+            "../../../../x.h",
+            "/abs/x.h",
+            "x.h ",
+            " x.h",
+            "x.h/",
+            "//x.h",
+            "con:",
+            "%s%n",
+            "x.h\tx.h",
+            "\u{e9}.h",
+        ][rng.below(12) as usize]
+            .to_string();
+    }
+    if rng.chance(1, 400) {
+        return "d/".repeat(1500) + "x.h";
+    }
     let rel = relative(dir_of(parent), target);
     let leaf = target.rsplit('/').next().unwrap_or(target).to_string();
     let alias = |p: &str| -> String {
